@@ -177,9 +177,10 @@ def check(run):
                 # <owner> = obj.source if isinstance(obj, Transition) else obj.name
                 owner = [st.targets[0].id for st, v in [(st, v) for n_ in q.walk(M, False) if isinstance(n_, ast.Assign) for st, v in [(n_, n_.value)]]
                          if isinstance(st.targets[0], ast.Name) and q.unparse(v) == '%s.source if isinstance(%s, Transition) else %s.name' % (op, op, op)]
-                if 'after' in keys:
+                owner_expr = '%s.source if isinstance(%s, Transition) else %s.name' % (op, op, op)
+                if 'after' in keys and owner:
                     run.check(len(owner) == 1 and len(q.assigned_value(M, owner[0])) == 1, r, m.short, 'owning state = source of a transition, else the state itself', 'owner computed differently', M)
-                key_expected = owner[0] if owner else '<owner>'
+                key_expected = owner[0] if owner else owner_expr
             for nm, fld in (('after', '_entry_time'), ('idle', '_idle_time')):
                 if nm in table:
                     n += 1
